@@ -3,7 +3,7 @@
    (Coq's Floats library is deliberately not imported here so that Print
    Assumptions prints the primitive float operations with qualified names.) *)
 From Murex Require Import Base.Outcome Base.Bytes Model.Expr Model.ExprSpec Check.C06
-     Proof.ExprClimb Proof.Expr Proof.ExprC06.
+     Proof.ExprClimb Proof.Expr Proof.ExprC06 Gen.ExprTables.
 Import ListNotations.
 
 (* The fold-pass evaluator (scan left to right, fold the first operator whose
